@@ -59,12 +59,14 @@ Definition subtypep_d (t : ctable) (d1 d2 : tdes) : sres :=
   | _, _ => SBool false
   end.
 
-(* typep of an object of kind k (typep.go): nil is only of type null; the empty list is of type null and
-   of every type of its hierarchy; otherwise membership in Hierarchy() up to case *)
+(* typep of an object of kind k (typep.go, with the repair C16-8): nil is treated as the empty list; the empty
+   list is of type null and of every type of its hierarchy; otherwise membership in Hierarchy() up to case.
+   (Before C16-8 nil was of type null only.) *)
 Definition hier (kt : ctable) (k : string) : list string := match assoc k kt with Some h => h | None => [] end.
+Definition as_list_kind (k : string) : string := if String.eqb k "nil" then "empty-list" else k.
 Definition typep_t (kt : ctable) (k : string) (ty : string) : bool :=
-  if String.eqb k "nil" then String.eqb (tname ty) "null"
-  else (String.eqb k "empty-list" && String.eqb (tname ty) "null") || mem (tname ty) (map lower (hier kt k)).
+  let k' := as_list_kind k in
+  (String.eqb k' "empty-list" && String.eqb (tname ty) "null") || mem (tname ty) (map lower (hier kt k')).
 (* type-of (type-of.go) *)
 Definition type_of_t (kt : ctable) (k : string) : string :=
   if String.eqb k "nil" || String.eqb k "empty-list" then "null" else hd "" (hier kt k).
@@ -90,7 +92,7 @@ Definition kinds_upward (t kt : ctable) : bool :=
                       | Some (_, sh) => forallb (fun u => typep_t kt (fst r) u) sh
                       | None => true
                       end)
-            (if String.eqb (fst r) "nil" then ["null"] else if String.eqb (fst r) "empty-list" then "null" :: snd r else snd r)) kt.
+            (if String.eqb (as_list_kind (fst r)) "empty-list" then "null" :: hier kt "empty-list" else snd r)) kt.
 (* kinds on which typep and subtypep agree: typep x ty = subtypep (type-of x) ty for every class name and
    every hierarchy symbol ty *)
 Definition probe_types (t kt : ctable) : list string := names t ++ flat_map snd kt ++ ["null"; "atom"; "no-such-type"].
